@@ -343,13 +343,13 @@ def check_sharing(chk, rng):
     statements are wired with `sameas`, i.e. literally the same definition and the same scalar values; what differs is
     chosen per scenario.  Whatever is shared, every recorder must see the stream Dataflow.tla specifies."""
     progs, scns, kinds = [], [], []
-    variants = ["same", "diff-input", "diff-scalar", "passive-second", "passive-first", "dup-sink"]
+    variants = ["same", "diff-input", "diff-scalar", "passive-second", "passive-first", "passive-cross", "dup-sink"]
     for k in range(60 if chk.tier == "quick" else 600):
         var = variants[k % len(variants)]
         horizon = 6
         s1 = P.gen_script(rng, horizon, maxlen=3)
         s2 = P.gen_script(rng, horizon, maxlen=4, values=(10, 20, 30))
-        kind = rng.choice(["sum2", "sumu"]) if var.startswith("passive") else rng.choice(["add", "delay", "sum2"])
+        kind = "sum2" if var == "passive-cross" else rng.choice(["sum2", "sumu"]) if var.startswith("passive") else rng.choice(["add", "delay", "sum2"])
         ka = rng.randint(1, 3)
         kb = ka if var != "diff-scalar" else ka + 1
         if var == "diff-scalar" and kind == "sum2":
@@ -369,6 +369,9 @@ def check_sharing(chk, rng):
             nodes[3]["kind"] = "sample2" if kind == "sum2" else "sampleu"
         if var == "passive-first":
             nodes[2]["kind"] = "sample2" if kind == "sum2" else "sampleu"
+        if var == "passive-cross":     # the two usages declare DIFFERENT inputs passive
+            nodes[2]["kind"] = "psum2a"
+            nodes[3]["kind"] = "sample2"
         progs.append(p)
         kinds.append(var)
         script = lambda s: ";".join("%d:%d" % (t, v) for t, v in s)
@@ -379,6 +382,9 @@ def check_sharing(chk, rng):
             refB = "%d,p:%d" % (insB[0], insB[1])
         if var == "passive-first":
             refA = "%d,p:%d" % (insA[0], insA[1])
+        if var == "passive-cross":
+            refA = "p:%d,%d" % (insA[0], insA[1])
+            refB = "%d,p:%d" % (insB[0], insB[1])
         stA = "n 3 %s %s in=%s" % (kind, (par % ka) if par else "", refA)
         stB = "n 4 %s %s in=%s%s" % (kind, (par % kb) if par else "", refB, "" if var == "diff-scalar" else " sameas=3")
         lines = ["scn share%d-%s" % (k, var), "opt start=1 end=%d" % (horizon + 1), "graph root", "n 1 src script=" + script(s1),
